@@ -196,7 +196,8 @@ impl FunctionCompiler<'_> {
                 let item_size = item_ty.size();
                 let item_stride = item_ty.stride();
 
-                let mut array = Vec::<u8>::with_capacity(item_stride as usize * items.len());
+                // zeroed, so that the padding between the items is the same in every build
+                let mut array = vec![0u8; item_stride as usize * items.len()];
 
                 for (idx, item) in items.into_iter().enumerate() {
                     let item = self.expr_to_const_data(loc, item)?;
@@ -209,8 +210,6 @@ impl FunctionCompiler<'_> {
                         );
                     }
                 }
-
-                unsafe { array.set_len(array.capacity()) }
 
                 array.into()
             }
